@@ -5,17 +5,17 @@ set -u
 id=$1; prop=$2; needs=${3:-}
 wt=/tmp/seed/$id
 cd $wt || exit 2
-git checkout -- . ; git apply /tmp/seed/$id.patch || { echo 'recorded patch does not apply in the worktree'; exit 2; }
-cp /tmp/seed/$id.demo.py $wt/demo.py 2>/dev/null
+git checkout -- . ; git clean -fdq -e '*.so' ; git apply /tmp/seed/$id.patch || { echo 'recorded patch does not apply in the worktree'; exit 2; }
+rm -f $wt/demo.py   # the demo is run from outside the worktree (pytest would collect it)
 # an extension built in the worktree must correspond to the source as it is now
 if ls $wt/genshi/*.so >/dev/null 2>&1; then (/venv/bin/python setup.py build_ext --inplace >/dev/null 2>&1; rm -rf build); fi
 [ "$(ls $wt/genshi/*.so 2>/dev/null)" ] && echo "note: extension built in worktree"
-/venv/bin/python demo.py >/tmp/seed/$id.demo_with.txt 2>&1; with=$?
+PYTHONPATH=$wt /venv/bin/python /tmp/seed/$id.demo.py >/tmp/seed/$id.demo_with.txt 2>&1; with=$?
 /verif/tools/baseline.py $wt >/tmp/seed/$id.tests_with.txt 2>&1; tests=$?
 git diff > /tmp/seed/$id.stash.diff; git checkout -- .
 # rebuild extension without the change if the worktree had one built
 if ls $wt/genshi/*.so >/dev/null 2>&1; then (/venv/bin/python setup.py build_ext --inplace >/dev/null 2>&1; rm -rf build); fi
-/venv/bin/python demo.py >/tmp/seed/$id.demo_without.txt 2>&1; without=$?
+PYTHONPATH=$wt /venv/bin/python /tmp/seed/$id.demo.py >/tmp/seed/$id.demo_without.txt 2>&1; without=$?
 git apply /tmp/seed/$id.stash.diff
 if ls $wt/genshi/*.so >/dev/null 2>&1; then (/venv/bin/python setup.py build_ext --inplace >/dev/null 2>&1; rm -rf build); fi
 echo "demo with change: exit $with ; without: exit $without ; tests with change: $(tail -1 /tmp/seed/$id.tests_with.txt) (rc $tests)"
